@@ -39,7 +39,8 @@ def run(ctx):  # noqa: F811
     from .c05 import pair_exploration
     res = _w_run(ctx)
     pair_exploration(ctx, res)
-    res.coverage["rule"] += ("; plus pairs of REAL TaskRunner processes on one job directory (the orphan and the relaunched process): A stopped at "
+    res.coverage["rule"] += ("; plus triples of real TaskRunner processes (failing job: A stopped at every traced line event, B waits for the run lock, A fails and leaves, "
+                             "B is held inside its body while C is launched - C must wait); plus pairs of REAL TaskRunner processes on one job directory (the orphan and the relaunched process): A stopped at "
                              "every traced line event, B started meanwhile, A resumed - exactly one successful body, never two at a time")
     return res
 
